@@ -218,7 +218,7 @@ def run(prog, rep, tier, repo):
                 else:
                     why = 'inner product is %s, expected self.%s(column)' % (show(c0)[:60], inner)
             else:
-                why = 'result is not <product>.to_vec()'
+                unread = 'result is not of the form <product>.to_vec() (the promotion / product lives in a helper?)'
             if not ok and unread:
                 rep.undecided('dot', key, '%s: %s' % (name, unread), site_of(b), proof=False)
             else:
@@ -244,7 +244,7 @@ def run(prog, rep, tier, repo):
                 else:
                     why = 'inner product is %s, expected row.%s(other)' % (show(c0)[:60], inner)
             else:
-                why = 'result is not <product>.to_vec()'
+                unread = 'result is not of the form <product>.to_vec() (the promotion / product lives in a helper?)'
             if not ok and unread:
                 rep.undecided('dot', key, '%s: %s' % (name, unread), site_of(b), proof=False)
             else:
